@@ -92,6 +92,8 @@ def main():
             plan = [(c, "quick") for c in checks] + [(checks[0], "thorough")]
             if tier_first == "thorough":
                 plan = [(c, "thorough") for c in checks]
+            elif os.environ.get("SEED_NO_THOROUGH"):
+                plan = [(c, "quick") for c in checks]
             for c, tier in plan:
                 t1 = time.time()
                 env = dict(os.environ, VERIF_REPO=d)
